@@ -878,9 +878,8 @@ def CustomObject(type='x-custom-type', properties=None, extension_name=None, is_
             extension = extension_name.split('--')[1]
             extension = extension.replace('-', '')
             NameExtension.__name__ = 'ExtensionDefinition' + extension
-            cls.with_extension = extension_name
         try:
-            return _custom_object_builder(cls, type, _properties, '2.1', _DomainObject)
+            new_cls = _custom_object_builder(cls, type, _properties, '2.1', _DomainObject)
         except Exception:
             if extension_name:
                 # the type was refused: don't leave its extension behind
@@ -888,5 +887,9 @@ def CustomObject(type='x-custom-type', properties=None, extension_name=None, is_
                     extension_name, None,
                 )
             raise
+        if extension_name:
+            # (on the generated class: the decorated class stays as it was)
+            new_cls.with_extension = extension_name
+        return new_cls
 
     return wrapper
